@@ -31,7 +31,13 @@ RULE = ("seeded random shot lists (repetitions, idle qubits, single shot, all-eq
         "exchanged; twin operator objects); shapes and forms: 64..130 terms, 64..300 distinct outcomes, exactly one term as "
         "PauliTerm and as PauliSum, constant-only operators, python-int and numpy-scalar coefficients, terms equal up to 2^-24 "
         "/ below 1e-8 / identical on one support, histograms as Counter / OrderedDict / numpy counts, marked qubits as tuple "
-        "/ set / frozenset, boolean bits; second route: expectation values from the parity tallies; "
+        "/ set / frozenset, boolean bits; NUMBER TYPES on every API: bits as Python bool / numpy bool / int8..uint64 / mixed within a "
+        "tuple / rows of a typed 2-d array (ev, parities, counts, dist, save, add_counts, histories; the library's tuple -> text memo "
+        "is emptied around each such case), counts and frequencies as numpy int8..uint64 and bool up to the type's maximum, "
+        "coefficients as numpy float32 / complex64 / int8..uint64 (up to the type's maximum) / Fraction / bool / one type per term, "
+        "one Measurements object asked with equal-valued operators of several coefficient types, the parity bit array in every "
+        "integer dtype and bool (up to 300 marked ones), marked qubits as numpy ints; "
+        "second route: expectation values from the parity tallies; "
         "distinct = distinct canonical JSON of the case")
 TRUSTED = [
     "numpy integer/float array arithmetic (sum, *, /, %, fancy indexing, reshape, 1-d broadcasting) computes the "
@@ -43,8 +49,24 @@ TRUSTED = [
     "RuntimeError on {} or on keys of different lengths (its own behaviour belongs to C17)",
     "CPython int/int true division is within a RELATIVE 1e-12 of the exact quotient (distribution entries compared with that tolerance)",
     "PauliTerm.qubits is a set of distinct non-negative ints (hypothesis Nodup in the Lean theorems)",
+    "number types: True == 1 and a numpy integer / bool equal to 0 or 1 IS that bit (int(b), hash and == agree with the Python int); numpy "
+    "scalar arithmetic against Python numbers keeps the numpy type (NEP 50), and is exact where the result is representable in it - "
+    "typed cases are generated so that it is, hence the model (exact rationals) answers them like any other case",
 ]
-ASSUMPTIONS = ["coefficients are real (python int/float); bits are 0/1; the eigenvalue of Z on bit b is 1-2b",
+ASSUMPTIONS = ["coefficients are real; bits are 0/1; the eigenvalue of Z on bit b is 1-2b",
+               "number types (established on the unchanged library): a bit may be a Python int / bool or a numpy bool / integer of any width "
+               "(tuples of them, also the rows of a typed array turned into tuples; a 2-d ndarray or a list of ndarray rows in place of the "
+               "list of tuples is refused with TypeError: unhashable - out of domain); a count may be a Python int / bool or a numpy "
+               "integer (numpy bool, float, Fraction counts: TypeError - out of domain); a coefficient may be a Python int / float / bool / "
+               "complex with zero imaginary part, a Fraction, or a numpy integer / float / complex scalar: numpy float32 / complex64 "
+               "coefficients make the library compute in float32 (numpy keeps the narrower type against Python floats), so they are "
+               "generated with dyadic values and 2^k <= 64 shots, where every intermediate result is exactly representable",
+               "EXCLUDED (defect of the unchanged library, reported): get_expectation_value_from_frequencies with frequencies given as "
+               "numpy integers of a width their TOTAL does not fit (sum() of numpy scalars wraps: {'01': np.uint8(200), '11': np.uint8(100)} "
+               "gives 2.27); typed frequencies are generated with totals inside the type",
+               "EXCLUDED (defect of the unchanged library, reported): get_parities_from_measurements on shots whose bits are UNSIGNED numpy "
+               "integers (uint8 / uint64, rows of a uint8 array): the pair tallies wrap around (np.abs(parity1 - parity2) in uint64); "
+               "unsigned bits are generated for every other API",
                "theorems are over an arbitrary field of characteristic 0; the driver evaluates the same definitions at Rat"]
 TOL = 1e-9
 REL = Fraction(1, 10 ** 12)     # rounding allowance relative to the natural scale of an entry (about 4500 ulp)
@@ -193,6 +215,14 @@ def corpus():
         # ---- bits that are booleans (True == 1): the unchanged library keys the histogram 'TrueFalse' (known finding)
         {"kind": "bool_bits", "shots": ["10", "00", "10"]},
         {"kind": "bool_bits", "shots": ["1", "0"], "numpy": True},
+        # ---- number types: bits as rows of a bool array / as numpy bools; counts as uint8; coefficients as float32 / int8 / Fraction /
+        #      bool in one operator (127 * 127 leaves int8); the bit array of the vectorised parity as a bool array
+        {"kind": "ev", "shots": ["01", "11", "01", "10"], "bessel": False, "exact": False, "bit_ty": "arr:bool", "coef": "typemix",
+         "terms": [_t(Fraction(3, 2), z(0)), _t(127, z(0, 1)), _t(1, z(1)), _t(Fraction(1, 3), [])]},
+        {"kind": "parities", "shots": ["011", "110", "111", "011"], "bit_ty": "np.bool_", "terms": [_t(1, z(0, 1, 2)), _t(1, z(2))]},
+        {"kind": "add_counts", "shots": ["01"], "counts": [["01", 2], ["10", 255], ["11", 0]], "counts_as": "np:uint8", "bit_ty": "bool"},
+        {"kind": "freq", "marked": [1, 0], "freq": [["01", 100], ["11", 27], ["10", 0]], "freq_as": "np:int8", "marked_as": "nptuple"},
+        {"kind": "parity_vec", "rows": ["111", "110", "000"], "marked": [0, 1, 2], "dtype": "bool"},
         # ---- one Measurements object asked for the same operator at three magnitudes
         {"kind": "history", "init": [["00", "01", "11", "01", "10"]],
          "operators": [[_t(2, z(0)), _t(-1, z(0, 1))], [_t(Fraction(2, 2 ** 40), z(0)), _t(Fraction(-1, 2 ** 40), z(0, 1))],
@@ -722,6 +752,134 @@ def _forms(rng, big):
     return cases
 
 
+def _pow2_shots(rng, w, kmax=6):
+    return _shots(rng, w, 2 ** rng.randrange(0, kmax + 1))
+
+
+# bits as UNSIGNED numpy integers are excluded from get_parities_from_measurements: on the unchanged library the pair tallies
+# wrap around (np.abs(parity1 - parity2) on uint64: 0 - 1 = 2^64 - 1) - reported as a defect of the library
+UNSIGNED_BITS = ("uint8", "uint64", "arr:uint8")
+
+
+def _types(rng, big):
+    """NUMBER TYPES of the values the quantifier covers, on every API: the bits of a shot as Python bool / numpy bool / numpy
+    signed and unsigned integers of every width / mixed within one tuple / rows of a typed 2-d array; counts and frequencies
+    as numpy integers of every width and as bools (values up to the type's maximum); coefficients as numpy float32 / complex64
+    / int8..uint64 (magnitudes up to the type's maximum: the PRODUCT of two leaves the type) / Fraction / bool /
+    one type per term; the bit array of check_parity_of_vector in every integer dtype and bool; marked qubits as numpy ints.
+    The VALUES are ordinary (and exactly representable in the type), so every sentence is judged as for Python numbers."""
+    cases = []
+    reps = 3 if big else 1
+    # -- bits: every type x every API (fresh objects) + one history per type
+    for bt in BIT_TYPES * reps:
+        w = rng.randrange(1, 7) if rng.random() < 0.8 else rng.choice([9, 17, 33, 65])
+        n = rng.choice([1, 2, 3, 5, 8, 13])
+        shots = _shots(rng, w, n)
+        terms = _terms(rng, min(w, 6), rng.randrange(2, 5), True)
+        cases.append({"kind": "ev", "shots": shots, "terms": terms, "bessel": n > 1 and rng.random() < 0.4, "exact": False, "bit_ty": bt})
+        if bt not in UNSIGNED_BITS:
+            cases.append({"kind": "parities", "shots": _shots(rng, w, n), "terms": terms, "bit_ty": bt})
+        cases.append({"kind": "counts", "shots": shots, "bit_ty": bt})
+        cases.append({"kind": "dist", "shots": _shots(rng, w, n), "bit_ty": bt})
+        cases.append({"kind": "save", "shots": shots, "bit_ty": bt})
+        keys = list(dict.fromkeys(_shots(rng, w, rng.randrange(1, 4))))
+        cases.append({"kind": "add_counts", "shots": shots[: rng.randrange(0, 3)], "counts": [[kk, rng.randrange(1, 4)] for kk in keys],
+                      "bit_ty": bt, "counts_as": rng.choice(COUNT_TYPES + ["np", None])})
+        h = _history(rng, big)
+        h["bit_ty"] = bt
+        if bt in UNSIGNED_BITS:
+            h["steps"] = [st for st in h["steps"] if st["do"] != "parities"]
+        cases.append(h)
+    # -- the all-ones / all-zeros / one-hot shots in every bit type (True, np.True_, np.uint8(1) ... all mean 1)
+    for bt in BIT_TYPES:
+        w = rng.randrange(2, 6)
+        shots = ["1" * w, "0" * w, "1" * w, "0" * (w - 1) + "1"]
+        terms = [{"coeff": 1, "ops": [[q, "Z"] for q in range(w)]}, {"coeff": 2, "ops": [[w - 1, "Z"]]}, {"coeff": 3, "ops": []}]
+        cases.append({"kind": "ev", "shots": shots, "terms": terms, "bessel": False, "exact": True, "bit_ty": bt})
+        if bt not in UNSIGNED_BITS:
+            cases.append({"kind": "parities", "shots": shots, "terms": terms, "bit_ty": bt})
+    # -- counts / frequencies: numpy integers of every width, bools; values up to the maximum of the type
+    tops = {"np:int8": 127, "np:uint8": 255, "np:int16": 32767, "np:int32": 2 ** 31 - 1, "np:uint32": 2 ** 32 - 1, "np:uint64": 2 ** 64 - 1, "bool": 1}
+    for form in COUNT_TYPES * reps:
+        w = rng.randrange(1, 6)
+        keys = list(dict.fromkeys(_shots(rng, w, rng.randrange(2, 6))))
+        top = tops[form]
+        # add_counts / from_counts: each count fits the type (the library repeats a tuple that many times: keep it small)
+        small = [[kk, rng.choice([0, 1, 1, 2, 3, min(top, 100), min(top, 127), min(top, 128), min(top, 200), min(top, 255), min(top, 300)])] for kk in keys]
+        cases.append({"kind": "add_counts", "shots": _shots(rng, w, rng.randrange(0, 3)), "counts": small, "counts_as": form})
+        # frequencies: every value AND the total fit the type; one run near the top of the type
+        budget = min(top, 2 ** 52)
+        freq, left = [], budget
+        for j, kk in enumerate(keys):
+            v = 1 if form == "bool" else rng.randrange(1, max(2, left // (len(keys) - j)) + 1) if rng.random() < 0.5 else rng.randrange(1, min(left - (len(keys) - j - 1), 9) + 1)
+            v = max(0, min(v, left - (len(keys) - j - 1)))
+            left -= v
+            freq.append([kk, v])
+        if form == "bool":
+            freq = [[kk, rng.choice([1, 1, 0])] for kk in keys]
+            if not any(v for _, v in freq):
+                freq[0][1] = 1
+        marked = rng.sample(range(w), rng.randrange(0, w + 1))
+        cases.append({"kind": "freq", "marked": marked, "freq": freq, "freq_as": form, "marked_as": rng.choice(["tuple", "nptuple", "set", "list"])})
+        cases.append({"kind": "freq", "marked": rng.sample(range(w), rng.randrange(1, w + 1)), "freq": [[kk, rng.randrange(1, 4) if form != "bool" else 1] for kk in keys],
+                      "freq_as": form, "marked_as": "nptuple"})
+    # -- coefficients: every type, small values and values next to the type's maximum; float32 / complex64 / float16 with
+    #    dyadic coefficients and 2^k shots (every intermediate result is exactly representable in the type)
+    mags = {"i8": [127, -128, 100, 90, 12], "i16": [32767, -32768, 30000, 182], "i32": [2 ** 31 - 1, -2 ** 31, 3 * 10 ** 9 // 2, 46341],
+            "u8": [255, 200, 128, 16], "u64": [2 ** 64 - 1, 2 ** 63 + 5, 2 ** 32, 3037000500]}
+    for form in COEF_TYPES * (2 * reps):
+        w = rng.randrange(1, 6)
+        nt = rng.randrange(1, 5)
+        terms = _terms(rng, w, nt, True)
+        pow2 = form in ("f32", "c64", "typemix") or rng.random() < 0.3
+        for t in terms:
+            if form in mags and rng.random() < 0.7:
+                t["coeff"] = rng.choice(mags[form])
+            elif form in ("bool", "np.bool_"):
+                t["coeff"] = rng.choice([1, 1, 1, 0])
+            elif form in ("f32", "c64"):
+                t["coeff"] = rat(_dyadic(rng) * Fraction(2) ** rng.choice([0, 0, -8, 8, -20, 20]))
+            elif form == "Fraction":
+                t["coeff"] = rat(Fraction(rng.randrange(-30, 31), rng.randrange(1, 13)))
+            elif form == "typemix":
+                t["coeff"] = rng.choice([rat(_dyadic(rng)), rng.choice([0, 1]), rng.randrange(-128, 256), rat(Fraction(rng.randrange(-9, 10), 7)), 2 ** 63 + rng.randrange(5)])
+            else:
+                t["coeff"] = rng.randrange(-9, 10)
+        shots = _pow2_shots(rng, w, 6) if pow2 else _shots(rng, w, rng.choice([3, 5, 6, 7, 11]))
+        bessel = (not pow2) and rng.random() < 0.4
+        c = {"kind": "ev", "shots": shots, "terms": terms, "bessel": bessel, "exact": False, "coef": form,
+             "single": len(terms) == 1 and rng.random() < 0.5}
+        if rng.random() < 0.3:
+            c["bit_ty"] = rng.choice(BIT_TYPES)
+        cases.append(c)
+        if rng.random() < 0.3:
+            cases.append({"kind": "parities", "shots": shots, "terms": terms, "coef": form})
+    # -- one Measurements object asked with the SAME operator in several coefficient types (equal values, equal hashes)
+    for _ in range(4 * reps):
+        w = rng.randrange(1, 5)
+        base = [{"coeff": rng.choice([1, 1, 0, 2, 3, -1, 100]), "ops": [[q, "Z"] for q in rng.sample(range(w), rng.randrange(0, w + 1))]} for _ in range(rng.randrange(1, 4))]
+        forms = rng.sample(["f32", "i8", "Fraction", "bool", "c64", "u8", "typemix", "int", "np"], 3)
+        h = {"kind": "history", "init": [_pow2_shots(rng, w, 4)], "operators": [base], "steps": []}
+        cases += [dict(h, coef=f, steps=[{"do": "ev", "op": 0, "bessel": False}, {"do": "counts"}, {"do": "parities", "op": 0},
+                                           {"do": "setitem", "index": 0, "shot": _flip(h["init"][0][0], rng.randrange(w))},
+                                           {"do": "ev", "op": 0, "bessel": False}, {"do": "dist"}]) for f in forms]
+    # -- the bit array of the vectorised parity in every dtype (a sum in the array's own dtype is not a parity for bool)
+    for dt in PV_DTYPES * reps:
+        w = rng.choice([1, 2, 3, 5, 8, 9])
+        rows = _shots(rng, w, rng.randrange(1, 8)) + ["1" * w]
+        cases.append({"kind": "parity_vec", "rows": rows, "marked": rng.sample(range(w), rng.randrange(0, w + 1)), "dtype": dt})
+        cases.append({"kind": "parity_vec", "rows": rows, "marked": list(range(w)), "dtype": dt})
+        pv = _pv_history(rng)
+        pv["dtype"] = dt
+        cases.append(pv)
+    # -- very many marked ones in a narrow dtype (300 ones: beyond int8 / uint8)
+    for dt in ["int8", "uint8", "bool"]:
+        w = rng.choice([130, 257, 300])
+        rows = ["1" * w, "1" * (w - 1) + "0", "0" * w, "01" * (w // 2) + "1" * (w % 2)]
+        cases.append({"kind": "parity_vec", "rows": rows, "marked": list(range(w)), "dtype": dt})
+    return cases
+
+
 def generate(rng, tier):
     big = tier == "thorough"
     maxw, maxn, maxt = (8, 200, 7) if big else (6, 60, 5)
@@ -831,6 +989,8 @@ def generate(rng, tier):
     for i in range(120 if big else 30):
         cases.append(_twin_history(r3, big))
     cases += _forms(_random.Random(rng.getrandbits(64)), big)
+    # ---- number types of bits / counts / coefficients / bit arrays (a fresh generator: the streams above stay as they were)
+    cases += _types(_random.Random(rng.getrandbits(64)), big)
     return cases
 
 
@@ -984,13 +1144,63 @@ def nontrivial(c):
 
 
 # ------------------------------------------------------------------ implementation
-def _tuples(shots, np_bits=False):
+BIT_TYPES = ["bool", "np.bool_", "int8", "uint8", "int16", "int32", "int64", "uint64", "mixed",
+             "arr:int8", "arr:uint8", "arr:bool", "arr:int64", "arr:int32"]
+
+
+def _bit_caster(bit_ty):
+    """bit_ty -> function (shot index, position, 0/1) -> the bit as an object of that type (True == 1, np.int8(1) == 1, ...)"""
+    np = _mods()[0]
+    if bit_ty == "bool":
+        return lambda i, k, b: bool(b)
+    if bit_ty == "np.bool_":
+        return lambda i, k, b: np.bool_(b)
+    if bit_ty == "mixed":  # every bit of a shot another integer-like type (what concatenated sources hand over)
+        ty = [np.int8, bool, np.uint8, int, np.int64, np.bool_, np.uint64, np.int16]
+        return lambda i, k, b: ty[(i + k) % len(ty)](b)
+    t = getattr(np, bit_ty)
+    return lambda i, k, b: t(b)
+
+
+def _tuples(shots, np_bits=False, bit_ty=None):
+    """the measured bitstrings as the list of tuples a caller hands over.  bit_ty (see BIT_TYPES): the TYPE of the bits - Python
+    bool, numpy bool / signed / unsigned integers of every width, mixed, or "arr:<dtype>": the rows of a 2-d numpy array of
+    that dtype turned into tuples (tuples of numpy scalars; the array itself / its rows are unhashable and are refused by the
+    library with TypeError)"""
+    if bit_ty:
+        np = _mods()[0]
+        if bit_ty.startswith("arr:"):
+            distinct = list(dict.fromkeys(shots))
+            if not distinct or not distinct[0]:
+                return [() for _ in shots]
+            arr = np.array([[int(ch) for ch in s] for s in distinct], dtype=bit_ty[4:])
+            memo = {s: tuple(row) for s, row in zip(distinct, arr)}
+            return [memo[s] for s in shots]
+        cast = _bit_caster(bit_ty)
+        memo = {}
+        out = []
+        for i, s in enumerate(shots):
+            if s not in memo:
+                memo[s] = tuple(cast(i, k, int(ch)) for k, ch in enumerate(s))
+            out.append(memo[s])
+        return out
     if np_bits:  # bits as numpy integers of mixed width (what a simulator hands over); still 0/1
         np = _mods()[0]
         ty = [np.int8, np.int64, np.uint8, np.int32]
         return [tuple(ty[(i + k) % 4](int(ch)) for k, ch in enumerate(s)) for i, s in enumerate(shots)]
     memo = {}
     return [memo.setdefault(s, tuple(int(ch) for ch in s)) for s in shots]
+
+
+def _forget_bitstrings():
+    """the library remembers tuple -> text per tuple VALUE (functools.lru_cache); (True, False), (np.int8(1), 0) and (1, 0) are
+    one key there, so a typed case is run with nothing remembered and leaves nothing behind for the cases after it"""
+    try:
+        from orquestra.quantum import utils
+        for name in ("tuple_to_bitstring", "bitstring_to_tuple"):
+            getattr(getattr(utils, name, None), "cache_clear", lambda: None)()
+    except Exception:  # noqa: BLE001
+        pass
 
 
 def _norm(c):
@@ -1028,9 +1238,50 @@ def _cnum(z):
     return [rat(Fraction(z.real)), rat(Fraction(z.imag))]
 
 
-def _coef_value(f, exact, form):
+COEF_TYPES = ["f32", "c64", "i8", "i16", "i32", "u8", "u64", "Fraction", "bool", "np.bool_", "typemix"]
+_INT_FORMS = {"i8": "int8", "i16": "int16", "i32": "int32", "u8": "uint8", "u64": "uint64"}
+
+
+def _typed_coef(f, form, salt=0):
+    """the rational f as an object of the number type `form`, or None when that type cannot hold f exactly"""
+    np = _mods()[0]
+    if form == "typemix":
+        order = ["Fraction", "i8", "f32", "bool", "c64", "u8", "i32", "np.bool_", "u64", "i16"]
+        for j in range(len(order)):
+            v = _typed_coef(f, order[(salt + j) % len(order)])
+            if v is not None:
+                return v
+        return None
+    if form == "Fraction":
+        return Fraction(f)
+    if form in ("bool", "np.bool_"):
+        if f in (0, 1):
+            return bool(f) if form == "bool" else np.bool_(bool(f))
+        return None
+    if form in _INT_FORMS:
+        info = np.iinfo(_INT_FORMS[form])
+        if f.denominator == 1 and info.min <= f <= info.max:
+            return getattr(np, _INT_FORMS[form])(int(f))
+        return None
+    if form in ("f32", "c64", "f16"):
+        t = {"f32": np.float32, "c64": np.float32, "f16": np.float16}[form]
+        with warnings.catch_warnings():
+            warnings.simplefilter("ignore")
+            x = t(float(f))
+        if not math.isfinite(float(x)) or Fraction(float(x)) != f:
+            return None
+        return np.complex64(complex(float(f), 0.0)) if form == "c64" else x
+    return None
+
+
+def _coef_value(f, exact, form, salt=0):
     """the Python object handed to PauliTerm as coefficient: float (default), python int for integers ("exact" cases and
-    form "int"), numpy scalars (form "np")"""
+    form "int"), numpy scalars (form "np"), or a value of one of COEF_TYPES where that type holds the number exactly"""
+    if form in COEF_TYPES:
+        v = _typed_coef(Fraction(f), form, salt)
+        if v is not None:
+            return v
+        return int(f) if f.denominator == 1 and exact else float(f)
     if form == "np":
         np = _mods()[0]
         return np.int64(int(f)) if (f.denominator == 1 and abs(f) < 2 ** 62) else np.float64(float(f))
@@ -1061,7 +1312,7 @@ def _operator(c, PauliSum, PauliTerm):
         elif form in ("complex", "str", "arith"):
             term = PauliTerm(dict(ops), complex(float(f), 0.0))
         else:
-            term = PauliTerm(dict(ops), _coef_value(f, c.get("exact"), form))
+            term = PauliTerm(dict(ops), _coef_value(f, c.get("exact"), form, len(ts)))
         ts.append(term)
     if c.get("single") and len(ts) == 1:
         return ts[0]
@@ -1191,8 +1442,13 @@ def _obs_parities(measurements, op, held=None):
     return out
 
 
-def _counts_form(pairs, form):
-    """the histogram argument in the forms a caller may hold it: dict, Counter, OrderedDict, numpy integer counts"""
+COUNT_TYPES = ["np:int8", "np:uint8", "np:int16", "np:int32", "np:uint32", "np:uint64", "bool"]
+
+
+def _counts_form(pairs, form, total_in_type=False):
+    """the histogram argument in the forms a caller may hold it: dict, Counter, OrderedDict, numpy integer counts of every
+    width ("np" = int64, "np:<dtype>"), Python bools for counts 0 / 1.  A count the type cannot hold stays a Python int;
+    total_in_type: the TOTAL must fit the type too (frequencies: the unchanged library adds them up in their own type)"""
     import collections
     if form == "Counter":
         d = collections.Counter()
@@ -1204,6 +1460,15 @@ def _counts_form(pairs, form):
     if form == "np":
         np = _mods()[0]
         return {kk: np.int64(v) for kk, v in pairs}
+    if form == "bool":
+        return {kk: (bool(v) if v in (0, 1) else v) for kk, v in pairs}
+    if form and form.startswith("np:"):
+        np = _mods()[0]
+        info = np.iinfo(form[3:])
+        t = getattr(np, form[3:])
+        if total_in_type and not (sum(max(v, 0) for _, v in pairs) <= info.max and sum(min(v, 0) for _, v in pairs) >= info.min):
+            return {kk: v for kk, v in pairs}
+        return {kk: (t(v) if info.min <= v <= info.max else v) for kk, v in pairs}
     return {kk: v for kk, v in pairs}
 
 
@@ -1278,6 +1543,10 @@ def _marked_form(marked, form):
         return frozenset(marked)
     if form == "tuple":
         return tuple(marked)
+    if form == "nptuple":  # qubit indices as numpy integers of several widths
+        np = _mods()[0]
+        ty = [np.int64, np.int8 if all(q < 128 for q in marked) else np.int32, np.uint8 if all(q < 256 for q in marked) else np.uint32, np.intp]
+        return tuple(ty[i % 4](q) for i, q in enumerate(marked))
     return list(marked)
 
 
@@ -1389,6 +1658,10 @@ def _walk(c):
 def _run_history(c):
     import gc
     np, Measurements, mm, pp, PauliSum, PauliTerm = _mods()
+    bt = c.get("bit_ty")   # every shot this history hands over has bits of this type
+
+    def _tuples(shots, _inner=globals()["_tuples"]):
+        return _inner(shots, False, bt)
     objs = []
     for j, x in enumerate(c["init"]):
         via = (c.get("init_via") or [])[j] if j < len(c.get("init_via") or []) else "list"
@@ -1500,11 +1773,26 @@ def _obs_bool_bits(c):
         clear()  # whatever was remembered for the boolean tuples must not reach the other cases of this run
 
 
+PV_DTYPES = ["int8", "uint8", "bool", "int16", "int32", "int64", "uint64"]
+
+
 def run_impl(c):
+    typed = bool(c.get("bit_ty") or c.get("np_bits"))
+    if typed:
+        _forget_bitstrings()
+    try:
+        return _run_impl(c)
+    finally:
+        if typed:
+            _forget_bitstrings()
+
+
+def _run_impl(c):
     np, Measurements, mm, pp, PauliSum, PauliTerm = _mods()
     c = _norm(c)
     k = c["kind"]
     npb = bool(c.get("np_bits"))
+    bt = c.get("bit_ty")
     if k == "history":
         return _run_history(c)
     if k == "freq_history":  # ONE dict object, edited in place between the calls
@@ -1534,33 +1822,33 @@ def run_impl(c):
                 outs.append(None)
         return {"steps": outs}
     if k == "pv_history":  # ONE array, bits flipped in place between the calls
-        arr = np.array(_tuples(c["rows"]), dtype=int)
+        arr = np.array(_tuples(c["rows"]), dtype=c.get("dtype") or int)
         outs = []
         for st in c["steps"]:
             if st["do"] == "query":
                 outs.append(_guard(lambda: _obs_parity_vec(np, pp, arr, st["marked"])))
             else:
-                arr[st["row"], st["col"]] ^= 1
+                arr[st["row"], st["col"]] = 1 - int(arr[st["row"], st["col"]])
                 outs.append(None)
         return {"steps": outs}
     if k == "ev":
-        return _guard(lambda: _obs_ev(Measurements(_tuples(c["shots"], npb)), _operator(c, PauliSum, PauliTerm), c["bessel"]))
+        return _guard(lambda: _obs_ev(Measurements(_tuples(c["shots"], npb, bt)), _operator(c, PauliSum, PauliTerm), c["bessel"]))
     if k == "parities":
-        return _guard(lambda: _obs_parities(_tuples(c["shots"], npb), _operator(c, PauliSum, PauliTerm)))
+        return _guard(lambda: _obs_parities(_tuples(c["shots"], npb, bt), _operator(c, PauliSum, PauliTerm)))
     if k == "counts":
-        return _guard(lambda: _obs_counts(Measurements(_tuples(c["shots"], npb))))
+        return _guard(lambda: _obs_counts(Measurements(_tuples(c["shots"], npb, bt))))
     if k == "add_counts":
-        return _guard(lambda: _obs_add_counts(Measurements(_tuples(c["shots"], npb)), c["counts"], c.get("counts_as")))
+        return _guard(lambda: _obs_add_counts(Measurements(_tuples(c["shots"], npb, bt)), c["counts"], c.get("counts_as")))
     if k == "dist":
-        return _guard(lambda: _obs_dist(Measurements(_tuples(c["shots"], npb))))
+        return _guard(lambda: _obs_dist(Measurements(_tuples(c["shots"], npb, bt))))
     if k == "save":
-        return _guard(lambda: _obs_save(Measurements(_tuples(c["shots"]))))
+        return _guard(lambda: _obs_save(Measurements(_tuples(c["shots"], npb, bt))))
     if k == "freq":
-        return _guard(lambda: _obs_freq(mm, c["marked"], c.get("marked_as") or c.get("as_set"), _counts_form(c["freq"], c.get("freq_as"))))
+        return _guard(lambda: _obs_freq(mm, c["marked"], c.get("marked_as") or c.get("as_set"), _counts_form(c["freq"], c.get("freq_as"), True)))
     if k == "bool_bits":
         return _obs_bool_bits(c)
     if k == "parity_vec":
-        return _guard(lambda: _obs_parity_vec(np, pp, np.array(_tuples(c["rows"]), dtype=int), c["marked"]))
+        return _guard(lambda: _obs_parity_vec(np, pp, np.array(_tuples(c["rows"]), dtype=c.get("dtype") or int), c["marked"]))
     raise AssertionError("unknown kind")
 
 
@@ -2032,6 +2320,12 @@ def distribution(cases, outs):
             "ev_rescaled_coefficients": sum(1 for c in ev if any(t["coeff"] != 0 and not (Fraction(1, 64) <= abs(unrat(t["coeff"])) <= 64)
                                                                  for t in c["terms"])),
             "max_width": max((len(s) for c in cases for s in c.get("shots", [])), default=0),
+            "bit_types": dict(Counter(c.get("bit_ty") or ("np-int-mix" if c.get("np_bits") else "int") for c in cases
+                                      if c["kind"] in ("ev", "parities", "counts", "dist", "add_counts", "save", "history"))),
+            "coefficient_types": dict(Counter(c.get("coef") or "float/int" for c in cases if c["kind"] in ("ev", "history"))),
+            "count_value_types": dict(Counter((c.get("counts_as") if c["kind"] == "add_counts" else c.get("freq_as")) or "int"
+                                              for c in cases if c["kind"] in ("add_counts", "freq"))),
+            "parity_array_dtypes": dict(Counter(c.get("dtype") or "int64" for c in cases if c["kind"] in ("parity_vec", "pv_history"))),
             "max_terms": max((len(c.get("terms", [])) for c in cases), default=0),
             "histories": sum(1 for c in cases if c["kind"] in WALKS),
             "history_queries": sum(1 for c in cases if c["kind"] in WALKS for st in c["steps"] if st["do"] in QUERIES + ("query",)),
